@@ -324,18 +324,83 @@ def tok_for(rng, atom, varid, hit, lits):
     return (atom, 0)
 
 
+# ---- C33-only generator extensions (gen_tokens / VOCAB / SAMPLE above are shared with vlib/props/c05.py: unchanged) ----
+BLANK_TOKS = ['" "', '"a b"', "' '", '"x y z"', '"%d %s"', '"a |"', 'L"p q"']     # real token texts with a blank: string / char literals
+STRWORDS = ['"a', 'b"', '"', '""', '"C"', '"C++"', '"x', 'y', 'z"', "'", '"/dev/null"']      # pattern words spelled with quotes
+
+
+def c_unescape(raw):
+    """value of the C string literal whose source text (between the quotes) is `raw`; fail closed on anything unusual"""
+    out, i = "", 0
+    while i < len(raw):
+        c = raw[i]
+        if c == "\\":
+            if i + 1 >= len(raw):
+                raise Unrecognised("dangling backslash in pattern literal: %r" % raw)
+            n = raw[i + 1]
+            m = {"\\": "\\", '"': '"', "'": "'", "n": "\n", "t": "\t", "?": "?"}
+            if n not in m:
+                raise Unrecognised("escape \\%s in pattern literal: %r" % (n, raw))
+            out += m[n]; i += 2
+        else:
+            out += c; i += 1
+    return out
+
+
+def c_escape(val):
+    return val.replace("\\", "\\\\").replace('"', '\\"')
+
+
+def gen_tokens_c33(rng, case, varid, lits):
+    """C33's own token lists: gen_tokens + (find kinds) a prefix of other tokens so that the first match is not at the start,
+    + occasionally a string / char literal with a blank inside"""
+    toks = gen_tokens(rng, case["pattern"], varid, lits)
+    if case["kind"] in ("FM", "FS"):
+        pre = [tok_for(rng, rng.choice(VOCAB + lits), varid, True, lits) for _ in range(rng.choice([0, 0, 1, 2, 3]))]
+        if pre and rng.random() < 0.3:
+            # a near miss in front: the first word(s) of the pattern only
+            pre = gen_tokens(rng, " ".join(words_of(case["pattern"])[:1]), varid, lits)[:1] + pre
+        toks = pre + toks
+    if rng.random() < 0.07:
+        j = rng.randrange(len(toks) + 1)
+        toks.insert(j, (rng.choice(BLANK_TOKS), 0))
+    return toks
+
+
+def gen_blank_case(rng):
+    """targeted: a token text L+' '+R and a pattern whose two consecutive words spell L and R (R possibly the first alternative)"""
+    T = rng.choice(['"a b"', '" "', '"x y z"', "' '"])
+    L, R = T.split(" ", 1)
+    R1 = R.split(" ")[0]
+    form = rng.choice([0, 0, 1, 2, 3])
+    if form == 0:
+        pat = "%s %s|%%any%%" % (L, R1)
+    elif form == 1:
+        pat = "%s %s|x %%any%%|" % (L, R1)
+    elif form == 2:
+        pat = "!!%s %s" % (L, R1)
+    else:
+        pat = "%%any%%| %s %s|;" % (L, R1)
+    if "|" in R1 or not R1:
+        pat = "%s %%any%%|" % L
+    toks = [(T, 0), (rng.choice(["x", ";", R1 or "x"]), 0)]
+    return pat, toks
+
+
 ATOMS = ["%any%", "%assign%", "%bool%", "%char%", "%comp%", "%num%", "%cop%", "%op%", "%or%", "%oror%", "%str%", "%type%", "%name%", "%var%", "%varid%"]
 LITS = [";", "(", ")", "{", "}", "[", "]", ",", ".", "::", "*", "&", "=", "==", "<", ">", "+", "-", "!", "&&", "foo", "x", "int", "const", "return", "if",
         "else", "true", "false", "...", "->", "++", "struct", "void", "auto", "%", "%=", "<<", ">>", "~", "^", "?", ":", "std", "0"]
 
 
-def gen_pattern(rng):
+def gen_pattern(rng, strwords=False):
     """pattern from the documented grammar"""
     n = rng.choice([1, 1, 2, 2, 3, 4, 5])
     ws = []
     for _ in range(n):
         k = rng.random()
-        if k < 0.35:
+        if strwords and rng.random() < 0.12:
+            ws.append(rng.choice(STRWORDS) + ("|%any%" if rng.random() < 0.3 else ""))
+        elif k < 0.35:
             ws.append(rng.choice(LITS + ATOMS))
         elif k < 0.65:
             m = rng.choice([2, 2, 3, 4])
@@ -353,15 +418,19 @@ def gen_pattern(rng):
 
 
 def case_line(k, c):
-    esc = c["pattern"]
+    esc = c.get("raw")
+    if esc is None:
+        esc = c_escape(c["pattern"])
+    va = ", varid" if c["varid"] else ""
+    en = ", end" if c.get("end") else ""
     if c["kind"] == "M":
-        call = 'R(Token::Match(tok, "%s"%s))' % (esc, ", varid" if c["varid"] else "")
+        call = 'R(Token::Match(tok, "%s"%s))' % (esc, va)
     elif c["kind"] == "S":
         call = 'R(Token::simpleMatch(tok, "%s"))' % esc
     elif c["kind"] == "FM":
-        call = 'idx(tok, Token::findmatch(tok, "%s"%s))' % (esc, ", varid" if c["varid"] else "")
+        call = 'idx(tok, Token::findmatch(tok, "%s"%s%s))' % (esc, en, va)
     else:
-        call = 'idx(tok, Token::findsimplematch(tok, "%s"))' % esc
+        call = 'idx(tok, Token::findsimplematch(tok, "%s"%s))' % (esc, en)
     return "    case %d: return %s;" % (k, call)
 
 
@@ -390,81 +459,146 @@ def translate(ctx):
     pass  # C33 has no generated Lean module: T1-T3 are decided through the driver (executable model functions)
 
 
+def norm_op(op):
+    """(case index, tokens, varid[, start, end]) -> 5-tuple; end None = the overload without `end`"""
+    if len(op) == 3:
+        return (op[0], op[1], op[2], 0, None)
+    return op
+
+
 def impl_vs_model(ctx, res, drv, cases, ops, name):
-    """ops: list of (case index, tokens [(str, varid)], varid).  Returns list of discrepancy dicts (P_impl failures)."""
+    """ops: list of (case index, tokens [(str, varid)], varid[, start, end]).  Returns list of discrepancy dicts (P_impl failures)."""
     exe = build_case_harness(ctx, cases)
+    ops = [norm_op(o) for o in ops]
     hl = []
-    for (k, toks, v) in ops:
+    for (k, toks, v, st, en) in ops:
         c = cases[k]
-        hl.append("%d %s %s %d %d %s" % (k, c["kind"], core.hx(c["pattern"]), v, len(toks), " ".join("%s %d" % (core.hx(s), vi) for s, vi in toks)))
+        if (en is not None) != bool(c.get("end")) and c["kind"] in ("FM", "FS"):
+            raise core.CheckBroken("C33: op/case disagree about the end overload: %r" % (c,))
+        hl.append("%d %s %s %d %d %s %d %s" % (k, c["kind"], core.hx(c["pattern"]), v, st, "-" if en is None else str(en), len(toks),
+                                              " ".join("%s %d" % (core.hx(s), vi) for s, vi in toks)))
     rc, hout, herr = core.run_lines(exe, [], hl, timeout=900)
     if len(hout) != len(hl):
         raise core.CheckBroken("C33 harness produced %d lines for %d ops (rc=%s): %s" % (len(hout), len(hl), rc, herr[-500:]))
     ml, impl_c, keys = [], [], []
-    for (k, toks, v), o in zip(ops, hout):
+    for (k, toks, v, st, en), o in zip(ops, hout):
         c = cases[k]
         m = re.match(r"^T(.*) \| I (\S+) \| C (\S+)$", o)
         if not m:
             raise core.CheckBroken("C33 harness line: " + o)
         tys = m.group(1).split()
-        ml.append("match %s %s %d %d %s" % (c["kind"], core.hx(c["pattern"]), v, 1 if c["varid"] else 0,
-                                              " ".join("%s %s %d %s" % (core.hx(s), ty.split(":")[0], vi, ty.split(":")[1]) for (s, vi), ty in zip(toks, tys))))
+        ml.append("match %s %s %d %d %d %s %s" % (c["kind"], core.hx(c["pattern"]), v, 1 if c["varid"] else 0, st, "-" if en is None else str(en),
+                                                 " ".join("%s %s %d %s" % (core.hx(s), ty.split(":")[0], vi, ty.split(":")[1]) for (s, vi), ty in zip(toks, tys))))
         impl_c.append("I %s | C %s" % (m.group(2), m.group(3)))
-        keys.append("%s|%s|%d|%s" % (c["kind"], c["pattern"], v, toks))
+        keys.append("%s|%s|%d|%s|%d|%s" % (c["kind"], c["pattern"], v, toks, st, en))
     rc, mout, merr = core.run_lines(drv, [], ml, timeout=900)
     if len(mout) != len(ml):
         raise core.CheckBroken("C33 driver produced %d lines for %d ops: %s" % (len(mout), len(ml), merr[-500:]))
     model_c = []
     meta = []
     for o in mout:
-        m = re.match(r"^I (\S+) \| C (\S+) \| S (\S+) \| twf (\S+)$", o)
+        m = re.match(r"^I (\S+) \| C (\S+) \| S (\S+) \| twf (\S+) \| tsok (\S+)$", o)
         if not m:
             raise core.CheckBroken("C33 driver line: " + o)
         model_c.append("I %s | C %s" % (m.group(1), m.group(2)))
-        meta.append((m.group(3), m.group(4)))
+        meta.append((m.group(3), m.group(4), m.group(5)))
 
-    def nontriv(op, out):
-        return True
-    opdesc = ["%s %r v=%d toks=%s" % (cases[k]["kind"], cases[k]["pattern"], v, " ".join(s + ("@%d" % vi if vi else "") for s, vi in toks)) for (k, toks, v) in ops]
+    def desc(k, toks, v, st, en):
+        d = "%s %r v=%d toks=%s" % (cases[k]["kind"], cases[k]["pattern"], v, " ".join(s + ("@%d" % vi if vi else "") for s, vi in toks))
+        if cases[k]["kind"] in ("FM", "FS"):
+            d += " start=%d end=%s" % (st, "-" if en is None else en)
+        return d
+    opdesc = [desc(*o) for o in ops]
     # register cases ourselves to apply the non-triviality rule
     mism = []
-    for i, (k, toks, v) in enumerate(ops):
+    for i, (k, toks, v, st, en) in enumerate(ops):
         p = cases[k]["pattern"]
-        nt = len(toks) > 0 and (len(words_of(p)) >= 2 or any(ch in p for ch in "|[!%"))
+        nt = len(toks) > st and (len(words_of(p)) >= 2 or any(ch in p for ch in "|[!%"))
         samp = dict(tie=name, op=opdesc[i], impl=impl_c[i], model=model_c[i]) if i % max(1, len(ops) // 3) == 0 else None
         res.case(name + "|" + keys[i], nt, samp)
         res.count("kind:" + cases[k]["kind"])
         res.count("len:%d" % min(len(toks), 6))
+        if cases[k]["kind"] in ("FM", "FS"):
+            res.count("find:" + ("no-end" if en is None else "end<start" if en < st else "end=null" if en >= len(toks) else "end-in-list"))
+            res.count("find-result:" + ("hit0" if impl_c[i].startswith("I 0 ") else "none" if impl_c[i].startswith("I N") else "throw" if impl_c[i].startswith("I E") else "hit>0"))
+        if cases[k]["varid"] and v == 0:
+            res.count("varid0-with-%varid%")
+        if "E" in (impl_c[i].split(" ")[1], impl_c[i].split(" ")[4]):
+            res.count("outcome:InternalError")
         if impl_c[i] != model_c[i]:
             mism.append(i)
     res.traces_validated += len(ops) - len(mism)
     res.oblig("correspondence:" + name, not mism, "correspondence",
               "" if not mism else "%d of %d ops differ; first: %s impl=[%s] model=[%s]" % (len(mism), len(ops), opdesc[mism[0]], impl_c[mism[0]], model_c[mism[0]]))
     disc = []
-    for i, (k, toks, v) in enumerate(ops):
+    for i, (k, toks, v, st, en) in enumerate(ops):
         I, C = re.match(r"^I (\S+) \| C (\S+)$", impl_c[i]).groups()
         if I != C and C != "-":
-            disc.append(dict(case=cases[k], tokens=toks, varid=v, interpreted=I, compiled=C, sem=meta[i][0], twf=meta[i][1], desc=opdesc[i],
-                             model_agrees=(impl_c[i] == model_c[i])))
-        if meta[i][1] == "1":
-            res.count("tokwf:1")
-        else:
-            res.count("tokwf:0")
+            disc.append(dict(case=cases[k], tokens=toks, varid=v, start=st, end=en, interpreted=I, compiled=C, sem=meta[i][0], twf=meta[i][1],
+                             tsok=meta[i][2], desc=opdesc[i], model_agrees=(impl_c[i] == model_c[i])))
+        res.count("tokwf:" + meta[i][1])
+        res.count("tsok:" + meta[i][2])
     return disc
 
 
 def classify(d):
-    """known-finding classes of interpreted != compiled on the real code"""
-    if d["varid"] == 0 and d["case"]["varid"]:
-        return "premise:varid0"     # calling with varid 0 is an internal error in both; outside the property
-    if d["twf"] == "0" and d["model_agrees"] and any(vi and (s in TOKTYPE_LITS) for s, vi in d["tokens"]):
+    """known-finding classes of interpreted != compiled on the real code; each needs the model to agree with BOTH real matchers
+    (so the disagreement is the one the counterexample theorems are about) and is narrowed to its failing input class"""
+    if not d["model_agrees"]:
+        return None
+    toks = d["tokens"][d.get("start", 0):]
+    if d["varid"] == 0 and d["case"]["varid"] and d["compiled"] == "E" and d["interpreted"] != "E":
+        return "varid0-eager-throw"     # compiled_ne_interpreted_varid0 / compiled_refines_interpreted
+    if d["twf"] == "0" and any(vi and (s in TOKTYPE_LITS) for s, vi in toks):
         return "literal-typed-token"    # token spelled like a tokTypes literal but typed otherwise (e.g. variable named `restrict`/`true`)
+    if d["tsok"] == "0" and d["twf"] == "1" and any(" " in s for s, vi in toks) and not (d["varid"] == 0 and d["case"]["varid"]):
+        return "blank-in-token-text"    # compiled_ne_interpreted_blank_token
     return None
+
+
+def pat_value(s):
+    """decoded pattern of a scanned call site / generated function (the source text carries C escapes)"""
+    return c_unescape(s["pattern"])
+
+
+def mk_case(s, origin):
+    return dict(kind=s["kind"], pattern=pat_value(s), raw=s["pattern"], varid=s["varid"], end=bool(s.get("end")), origin=origin)
+
+
+def gen_ops(rng, cases, ncorp, per):
+    """ops for the generated part of `cases` (the last ncorp cases are corpus cases with their own ops)"""
+    ops = []
+    for k, c in enumerate(cases[:len(cases) - ncorp]):
+        lits = [w for w in re.split(r"[ |]", c["pattern"]) if w and not w.startswith(("%", "[", "!!"))] or ["x"]
+        for _ in range(per):
+            v = rng.choice([1, 2, 3]) if c["varid"] else 0
+            if c["varid"] and rng.random() < 0.1:
+                v = 0                        # InternalError paths: modelled, compared, P_impl class varid0-eager-throw
+            toks = gen_tokens_c33(rng, c, v, lits)
+            st, en = 0, None
+            if c["kind"] in ("FM", "FS"):
+                st = rng.choice([0, 0, 0, 1, 2]) if toks else 0
+                if c.get("end"):
+                    en = rng.randrange(0, len(toks) + 1)       # anywhere: in front of start, inside, == ntok (nullptr)
+            ops.append((k, toks, v, st, en))
+        ops.append((k, [], 1 if c["varid"] else 0, 0, 0 if c.get("end") and c["kind"] in ("FM", "FS") else None))
+    return ops
+
+
+def report(res, disc, prefix=""):
+    for d in disc:
+        key = classify(d)
+        res.violation("%scompiled and interpreted matcher disagree on the real code: %s interpreted=%s compiled=%s" % (prefix, d["desc"], d["interpreted"], d["compiled"]),
+                      dict(kind=d["case"]["kind"], pattern=d["case"]["pattern"], hasVarid=d["case"]["varid"], hasEnd=bool(d["case"].get("end")),
+                           tokens=d["tokens"], v=d["varid"], start=d["start"], end=d["end"],
+                           interpreted=d["interpreted"], compiled=d["compiled"], documented=d["sem"], tokwf=d["twf"], tsok=d["tsok"],
+                           model_agrees=d["model_agrees"], replay_cmd="./check.py C33 --replay <this file>"), concrete=True, key=key)
 
 
 def run(ctx, res):
     rng = ctx.rng
     thorough = ctx.tier == "thorough"
+    res.assumptions = list(ASSUMPTIONS)
     core.prove(ctx, res, MODULES, THEOREMS)
     drv = ctx.driver("drv_c33")
 
@@ -492,6 +626,8 @@ def run(ctx, res):
             bad_t1.append((p, v, g["prog"], prog, g["file"]))
     res.extra["source_functions"] = len(gen)
     res.extra["source_unique_patterns"] = len(uniq)
+    res.extra["source_find_functions"] = sum(1 for g in gen if g["find"])
+    res.extra["source_find_functions_with_end"] = sum(1 for g in gen if g["find"] and g["end"])
     res.oblig("T1:generated-code-equals-model-compile", not bad_t1 and not t1_err and len(gen) > 0, "translation",
               t1_err or ("" if not bad_t1 else "%d patterns differ; first: %r (file %s) c++=%s model=%s" % (len(bad_t1), bad_t1[0][0], bad_t1[0][4], bad_t1[0][2], bad_t1[0][3])))
     # the recorded call sites must be exactly the generated functions (translator self-check)
@@ -500,18 +636,28 @@ def run(ctx, res):
     res.oblig("T1:scan-equals-generated", rec_keys == gen_keys, "translation",
               "" if rec_keys == gen_keys else "call sites seen by the scanner and functions in the generated files differ: %s" % list(rec_keys ^ gen_keys)[:3])
     bad_wf = []
-    lines = ["compile %s 0" % core.hx(s["pattern"]) for s in src]
+    vals = []
+    for s in src:
+        try:
+            vals.append(pat_value(s))
+        except Unrecognised as ex:
+            vals.append(None)
+            bad_wf.append(dict(s, why=str(ex)))
+    lines = ["compile %s 0" % core.hx(v if v is not None else "x") for v in vals]
     rc, out, err = core.run_lines(drv, [], lines)
-    for s, o in zip(src, out):
+    for s, val, o in zip(src, vals, out):
+        if val is None:
+            continue
         f = dict(x.split("=") for x in o.split(" ")[1:])
-        ok = f["swf"] == "1" if s["kind"] in ("S", "FS") else f["wf"] == "1"
+        ok = f["swf"] == "1" if s["kind"] in ("S", "FS") else (f["wf"] == "1" and f["nn"] == "1")
         if "\\" in s["pattern"]:
             res.count("pattern-with-escape")
-            continue
         if not ok:
             bad_wf.append(s)
         if s["varid"] != (f["uv"] == "1") and s["kind"] in ("M", "FM"):
             bad_wf.append(dict(s, why="varid argument / %varid% use mismatch"))
+        if s["varid"] and s["kind"] in ("S", "FS"):
+            bad_wf.append(dict(s, why="simpleMatch call compiled with a varid argument"))
     res.extra["source_call_sites"] = len(src)
     res.oblig("T2:all-source-patterns-wellformed", not bad_wf and len(src) > 1000, "translation",
               "" if not bad_wf else "%d call sites with a pattern outside the well-formed language; first: %s" % (len(bad_wf), bad_wf[0]))
@@ -536,97 +682,98 @@ def run(ctx, res):
     # ---- C1: correspondence on results -----------------------------------------------------------
     n_src = 600 if thorough else 140
     n_gen = 500 if thorough else 120
+    n_blank = 60 if thorough else 16
     per = 14 if thorough else 8
-    usable = [s for s in src if "\\" not in s["pattern"] and '"' not in s["pattern"]]
+    usable = [s for s, v in zip(src, vals) if v is not None]
     seen, cases = set(), []
-    for s in rng.sample(usable, min(n_src, len(usable))):
-        key = (s["kind"], s["pattern"], s["varid"])
+    # every source pattern spelled with quotes is always in the sample (string-literal words), the rest is drawn
+    quoted = [s for s in usable if '"' in s["pattern"]]
+    finds_end = [s for s in usable if s["kind"] in ("FM", "FS") and s["end"]]
+    for s in quoted + rng.sample(finds_end, min(12 if not thorough else 60, len(finds_end))) + rng.sample(usable, min(n_src, len(usable))):
+        key = (s["kind"], s["pattern"], s["varid"], bool(s["end"]))
         if key not in seen:
             seen.add(key)
-            cases.append(dict(kind=s["kind"], pattern=s["pattern"], varid=s["varid"], origin="source:" + s["file"]))
+            cases.append(mk_case(s, "source:" + s["file"]))
     for _ in range(n_gen):
-        p = gen_pattern(rng)
-        kind = rng.choice(["M", "M", "M", "FM"])
-        c = dict(kind=kind, pattern=p, varid="%varid%" in p, origin="grammar")
-        if (c["kind"], p, c["varid"]) not in seen:
-            seen.add((c["kind"], p, c["varid"]))
+        p = gen_pattern(rng, strwords=True)
+        kind = rng.choice(["M", "M", "M", "FM", "FM"])
+        c = dict(kind=kind, pattern=p, varid="%varid%" in p, end=(kind == "FM" and rng.random() < 0.5), origin="grammar")
+        key = (c["kind"], p, c["varid"], c["end"])
+        if key not in seen:
+            seen.add(key)
             cases.append(c)
-    # corpus of past disagreements runs first
+    blank_ops = []
+    for _ in range(n_blank):
+        p, toks = gen_blank_case(rng)
+        c = dict(kind="M", pattern=p, varid=False, end=False, origin="blank-token")
+        key = (c["kind"], p, False, False)
+        if key not in seen:
+            seen.add(key)
+            cases.append(c)
+            blank_ops.append((len(cases) - 1, toks, 0, 0, None))
+    # corpus of past disagreements / witnesses of the known findings
     corpus = load_corpus()
+    ngen = len(cases)
     for c in corpus:
-        cases.append(dict(kind=c["kind"], pattern=c["pattern"], varid=c["varid"], origin="corpus"))
+        cases.append(dict(kind=c["kind"], pattern=c["pattern"], varid=c["varid"], end=c.get("end") is not None and c["kind"] in ("FM", "FS"), origin="corpus"))
     ops = []
-    ncorp = len(corpus)
     for j, c in enumerate(corpus):
-        ops.append((len(cases) - ncorp + j, [tuple(t) for t in c["tokens"]], c["v"]))
-    lits_all = sorted(set(w for c in cases for w in re.split(r"[ |]", c["pattern"]) if w and not w.startswith(("%", "[", "!!"))))
-    for k, c in enumerate(cases[:len(cases) - ncorp]):
-        lits = [w for w in re.split(r"[ |]", c["pattern"]) if w and not w.startswith(("%", "[", "!!"))] or ["x"]
-        for _ in range(per):
-            v = rng.choice([1, 2, 3]) if c["varid"] else 0
-            ops.append((k, gen_tokens(rng, c["pattern"], v, lits), v))
-        ops.append((k, [], 1 if c["varid"] else 0))
+        ops.append((ngen + j, [tuple(t) for t in c["tokens"]], c["v"], c.get("start", 0), c.get("end")))
+    ops += blank_ops
+    ops += gen_ops(rng, cases, len(corpus), per)
     disc = impl_vs_model(ctx, res, drv, cases, ops, "match-results")
     res.extra["patterns_exercised"] = len(cases)
 
     # ---- P_impl on everything explored ---------------------------------------------------------------
-    for d in disc:
-        key = classify(d)
-        if key and key.startswith("premise:"):
-            res.count("outside-premise")
-            continue
-        res.violation("compiled and interpreted matcher disagree on the real code: %s interpreted=%s compiled=%s" % (d["desc"], d["interpreted"], d["compiled"]),
-                      dict(kind=d["case"]["kind"], pattern=d["case"]["pattern"], hasVarid=d["case"]["varid"], tokens=d["tokens"], v=d["varid"],
-                           interpreted=d["interpreted"], compiled=d["compiled"], documented=d["sem"],
-                           replay_cmd="./check.py C33 --replay <this file>"), concrete=True, key=key)
+    report(res, disc)
 
     # ---- violation search when an obligation is broken but no concrete input was found yet -------------------
-    if any(not o["ok"] for o in res.obligations) and not any(v["concrete"] for v in res.violations):
-        search(ctx, res, drv, bad_wf, bad_t1, src)
+    if any(not o["ok"] for o in res.obligations) and not any(v["concrete"] and not classify_key_known(v) for v in res.violations):
+        search(ctx, res, drv, bad_wf, bad_t1, src, vals)
 
 
-def search(ctx, res, drv, bad_wf, bad_t1, src):
+def classify_key_known(v):
+    return v.get("key") in ("literal-typed-token", "blank-in-token-text", "varid0-eager-throw")
+
+
+def search(ctx, res, drv, bad_wf, bad_t1, src, vals):
     """run suspicious patterns (not well-formed / compiled differently from the model) through the real code on many lists"""
     rng = ctx.rng
     sus = []
     for s in bad_wf:
-        sus.append(dict(kind=s["kind"], pattern=s["pattern"], varid=s["varid"], origin="not-wf"))
+        try:
+            sus.append(mk_case(s, "not-wf"))
+        except Unrecognised:
+            pass
     for (p, v, a, b, f) in bad_t1:
-        sus.append(dict(kind="M", pattern=p, varid=v, origin="compile-differs"))
+        try:
+            sus.append(dict(kind="M", pattern=c_unescape(p), raw=p, varid=v, end=False, origin="compile-differs"))
+        except Unrecognised:
+            pass
     if not sus:
         # compiler or interpreter changed in a way only results show: widen the sample
-        usable = [s for s in src if "\\" not in s["pattern"] and '"' not in s["pattern"]]
+        usable = [s for s, v in zip(src, vals) if v is not None]
         for s in rng.sample(usable, min(500, len(usable))):
-            sus.append(dict(kind=s["kind"], pattern=s["pattern"], varid=s["varid"], origin="wide"))
+            sus.append(mk_case(s, "wide"))
     seen, cases = set(), []
     for c in sus:
-        if "\\" in c["pattern"] or '"' in c["pattern"]:
-            continue
-        k = (c["kind"], c["pattern"], c["varid"])
+        k = (c["kind"], c["pattern"], c["varid"], c["end"])
         if k not in seen:
             seen.add(k); cases.append(c)
     cases = cases[:600]
-    ops = []
-    for k, c in enumerate(cases):
-        lits = [w for w in re.split(r"[ |]", c["pattern"]) if w and not w.startswith(("%", "[", "!!"))] or ["x"]
-        for _ in range(40):
-            v = rng.choice([1, 2, 3]) if c["varid"] else 0
-            ops.append((k, gen_tokens(rng, c["pattern"], v, lits), v))
-        ops.append((k, [], 1 if c["varid"] else 0))
     if not cases:
         return
+    ops = gen_ops(rng, cases, 0, 40)
     res2 = core.Result(ctx, res.level)
     disc = impl_vs_model(ctx, res2, drv, cases, ops, "search")
     res.extra["search_ops"] = len(ops)
+    n = 0
     for d in disc:
-        key = classify(d)
-        if key and key.startswith("premise:"):
-            continue
-        res.violation("search: compiled and interpreted matcher disagree on the real code: %s interpreted=%s compiled=%s" % (d["desc"], d["interpreted"], d["compiled"]),
-                      dict(kind=d["case"]["kind"], pattern=d["case"]["pattern"], hasVarid=d["case"]["varid"], tokens=d["tokens"], v=d["varid"],
-                           interpreted=d["interpreted"], compiled=d["compiled"], documented=d["sem"]), concrete=True, key=key)
-        if len(res.violations) > 20:
-            break
+        if classify(d) is None:
+            n += 1
+            if n > 20:
+                break
+        report(res, [d], "search: ")
 
 
 def load_corpus():
@@ -637,9 +784,11 @@ def load_corpus():
 
 def replay(ctx, res, rp):
     drv = ctx.driver("drv_c33")
-    cases = [dict(kind=rp["kind"], pattern=rp["pattern"], varid=rp["hasVarid"], origin="replay")]
-    disc = impl_vs_model(ctx, res, drv, cases, [(0, [tuple(t) for t in rp["tokens"]], rp["v"])], "replay")
+    TOKTYPE_LITS.update(load_matchcompiler().tokTypes.keys())
+    en = rp.get("end")
+    cases = [dict(kind=rp["kind"], pattern=rp["pattern"], varid=rp["hasVarid"], end=rp.get("hasEnd", en is not None), origin="replay")]
+    disc = impl_vs_model(ctx, res, drv, cases, [(0, [tuple(t) for t in rp["tokens"]], rp["v"], rp.get("start", 0), en)], "replay")
     for d in disc:
-        print("VIOLATION property=C33 replay=(replayed) interpreted=%s compiled=%s %s" % (d["interpreted"], d["compiled"], d["desc"]))
+        print("VIOLATION property=C33 replay=(replayed) interpreted=%s compiled=%s class=%s %s" % (d["interpreted"], d["compiled"], classify(d), d["desc"]))
     print("replay: %d discrepancy" % len(disc))
     return 1 if disc else 0
